@@ -9,8 +9,8 @@ and call none of the three kinds of items handlers.
 """
 import itertools
 
-from traits.api import (CInt, CStr, Dict, HasTraits, Instance, Int, List, Set,
-                        Str, TraitError)
+from traits.api import (CInt, CStr, Dict, HasTraits, Instance, Int, List,
+                        Property, PrototypedFrom, Set, Str, TraitError)
 
 from props import c05_list, c06_dict, c07_set
 
@@ -154,6 +154,14 @@ CONFIGS = {
                              trait=lambda: List(Int, items=False,
                                                 maxlen=2),
                              dom=INT, minlen=0, maxlen=2),
+    # the container trait is reached through PrototypedFrom (validated by
+    # the prototype's trait, stored locally)
+    "list_prototyped": dict(kind="list", trait=None, dom=INT, minlen=0,
+                            maxlen=3),
+    # a validated container Property inherited by a subclass that overrides
+    # only the getter
+    "list_property_subclass": dict(kind="list", trait=None, dom=INT,
+                                   minlen=0, maxlen=3, no_observe=True),
     "list_inst": dict(kind="list", trait=lambda: List(Instance(A)), dom=INST,
                       minlen=0, maxlen=None),
     "list_list": dict(kind="list",
@@ -170,16 +178,45 @@ CONFIGS = {
 _CLASSES = {}
 
 
+class ProtoHolder(HasTraits):
+    x = List(Int, maxlen=3)
+
+
+class PropBase(HasTraits):
+    """a validated container Property; subclasses override only the getter"""
+    x = Property(List(Int, maxlen=3))
+
+    def _get_x(self):
+        return self.__dict__.get("_x", [])
+
+    def _set_x(self, value):
+        self.__dict__["_x"] = value
+
+
 def owner_class(cfgname):
     if cfgname not in _CLASSES:
         cfg = CONFIGS[cfgname]
+        if cfgname == "list_prototyped":
+            class Owner(HasTraits):
+                proto = Instance(ProtoHolder, ())
+                x = PrototypedFrom("proto")
+                calls = None
 
-        class Owner(HasTraits):
-            x = cfg["trait"]()
-            calls = None
+                def _x_items_changed(self, ev):
+                    self.calls.append("static")
+        elif cfgname == "list_property_subclass":
+            class Owner(PropBase):
+                calls = None
 
-            def _x_items_changed(self, ev):
-                self.calls.append("static")
+                def _get_x(self):       # overrides the getter only
+                    return self.__dict__.get("_x", [])
+        else:
+            class Owner(HasTraits):
+                x = cfg["trait"]()
+                calls = None
+
+                def _x_items_changed(self, ev):
+                    self.calls.append("static")
         Owner.__name__ = "Owner_" + cfgname
         _CLASSES[cfgname] = Owner
     return _CLASSES[cfgname]
@@ -194,8 +231,9 @@ class Live:
         self.o.calls = self.calls
         self.o.x = state_raw
         calls = self.calls
-        self.o.on_trait_change(lambda: calls.append("otc"), "x_items")
-        self.o.observe(lambda ev: calls.append("observe"), "x.items")
+        if not self.cfg.get("no_observe"):
+            self.o.on_trait_change(lambda: calls.append("otc"), "x_items")
+            self.o.observe(lambda ev: calls.append("observe"), "x.items")
         if self.cfg.get("nested"):
             self.o.observe(lambda ev: calls.append("observe-nested"),
                            "x:items:items")
